@@ -1081,4 +1081,94 @@ theorem ordered_calls (progs : List (List (Nat × Nat)))
     exact ordered_append id _ _ [] (hp c (h c (by simp))) (ih (fun c' hc' => h c' (by simp [hc'])))
 
 
+/-! ## a thread that needs no mutex held by parked threads runs on its own -/
+section Solo
+variable {α : Type}
+
+theorem Reach.trans {M : Machine} {a b c : State M} (h1 : Reach M a b) (h2 : Reach M b c) : Reach M a c := by
+  induction h2 with
+  | refl => exact h1
+  | tail _ st ih => exact Reach.tail ih st
+
+/-- mutexes a program acquires -/
+def acquires : List (Act α) → List Nat
+  | [] => []
+  | .acq l :: p => l :: acquires p
+  | _ :: p => acquires p
+
+/-- one enabled step of an ordered thread whose next action needs no mutex held by the others -/
+theorem solo_step (rank : Nat → Nat) (o : List (Thread α)) (sh : Shared α) (th : Thread α)
+    (act : Act α) (p : List (Act α)) (hp : th.prog = act :: p)
+    (hord : ordered rank th.held th.prog = true)
+    (hfree : ∀ u ∈ o, ∀ l ∈ u.held, l ∉ acquires [act]) :
+    ∃ th' sh', lockStep o sh th = some (th', sh') ∧ th'.prog = p := by
+  unfold lockStep
+  rw [hp]
+  cases act with
+  | acq l =>
+    have h1 : (o.all fun u => !holds l u) = true := by
+      simp only [List.all_eq_true, Bool.not_eq_true', holds]
+      intro u hu
+      cases hc : u.held.contains l with
+      | false => rfl
+      | true =>
+        have : l ∈ u.held := by simpa using hc
+        exact absurd (by simp [acquires]) (hfree u hu l this)
+    have h2 : holds l th = false := by
+      rw [hp] at hord
+      simp only [ordered, Bool.and_eq_true, List.all_eq_true, decide_eq_true_eq] at hord
+      cases hc : holds l th with
+      | false => rfl
+      | true =>
+        have : l ∈ th.held := by simpa [holds] using hc
+        have := hord.1 l this
+        omega
+    simp only [h1, h2, Bool.not_false, Bool.and_self, if_true]
+    exact ⟨_, _, rfl, rfl⟩
+  | rel l => exact ⟨_, _, rfl, rfl⟩
+  | emit x => exact ⟨_, _, rfl, rfl⟩
+  | copy n => exact ⟨_, _, rfl, rfl⟩
+  | advance => exact ⟨_, _, rfl, rfl⟩
+  | skip => exact ⟨_, _, rfl, rfl⟩
+
+theorem acquires_cons_sub (act : Act α) (p : List (Act α)) (l : Nat) :
+    (l ∈ acquires [act] → l ∈ acquires (act :: p)) ∧ (l ∈ acquires p → l ∈ acquires (act :: p)) := by
+  cases act <;> simp [acquires] <;> exact ⟨Or.inl, Or.inr⟩
+
+/-- a thread whose next `pre` actions acquire only mutexes that no OTHER thread holds can run
+through `pre` on its own, whatever the others are parked on -/
+theorem solo_run (rank : Nat → Nat) (a b : List (Thread α)) :
+    ∀ (pre rest : List (Act α)) (th : Thread α) (sh : Shared α),
+      th.prog = pre ++ rest → ordered rank th.held th.prog = true →
+      (∀ u ∈ a ++ b, ∀ l ∈ u.held, l ∉ acquires pre) →
+      ∃ th' sh', Reach (LockM α) ⟨a ++ th :: b, sh⟩ ⟨a ++ th' :: b, sh'⟩ ∧ th'.prog = rest := by
+  intro pre
+  induction pre with
+  | nil => intro rest th sh hp _ _; exact ⟨th, sh, Reach.refl _, by simpa using hp⟩
+  | cons act pre ih =>
+    intro rest th sh hp hord hfree
+    have hp' : th.prog = act :: (pre ++ rest) := by simpa using hp
+    obtain ⟨th1, sh1, hst, hp1⟩ := solo_step rank (a ++ b) sh th act (pre ++ rest) hp' hord
+      (fun u hu l hl hc => hfree u hu l hl ((acquires_cons_sub act pre l).1 hc))
+    have hord1 := lockStep_ordered rank _ _ _ _ _ hst hord
+    have step1 : Step (LockM α) ⟨a ++ th :: b, sh⟩ ⟨a ++ th1 :: b, sh1⟩ :=
+      Step.mk a.length (stepAt_of_split (M := LockM α) ⟨a ++ th :: b, sh⟩ a b th th1 sh1 rfl hst)
+    obtain ⟨th', sh', hr, hp2⟩ := ih rest th1 sh1 hp1 hord1
+      (fun u hu l hl hc => hfree u hu l hl ((acquires_cons_sub act pre l).2 hc))
+    exact ⟨th', sh', Reach.trans (Reach.tail (Reach.refl _) step1) hr, hp2⟩
+
+end Solo
+
+theorem ofEvents_append (α : Type) (x y : List (Nat × Nat)) :
+    ofEvents α (x ++ y) = ofEvents α x ++ ofEvents α y := by
+  induction x with
+  | nil => rfl
+  | cons e x ih =>
+    obtain ⟨k, l⟩ := e
+    match k with
+    | 0 => simp [ofEvents, ih]
+    | 1 => simp [ofEvents, ih]
+    | k + 2 => simp [ofEvents, ih]
+
+
 end Gotlcp.Lemmas.Locks
